@@ -298,3 +298,101 @@ def parse_t2t(mem):
             reserved |= set(range(a, a + n))
         pos = pos + hl + ln
     return {"status": "no-ndef", "reserved": reserved}
+
+
+class NTAG21xSilicon(T2TSilicon):
+    """NTAG210/212/213/215/216 (and compatible config layout): GET_VERSION, PWD_AUTH/PACK, AUTH0/PROT."""
+    PRODUCTS = {  # name: (total pages, cfg page, version bytes, CC size byte)
+        "NTAG210": (20, 16, b"\x00\x04\x04\x01\x01\x00\x0B\x03", 0x06),
+        "NTAG212": (41, 37, b"\x00\x04\x04\x01\x01\x00\x0E\x03", 0x10),
+        "NTAG213": (45, 41, b"\x00\x04\x04\x02\x01\x00\x0F\x03", 0x12),
+        "NTAG215": (135, 131, b"\x00\x04\x04\x02\x01\x00\x11\x03", 0x3E),
+        "NTAG216": (231, 227, b"\x00\x04\x04\x02\x01\x00\x13\x03", 0x6D),
+    }
+
+    def __init__(self, product, uid, pwd=b"\xFF\xFF\xFF\xFF", pack=b"\x00\x00", auth0=0xFF, prot=False, ndef=True):
+        npages, cfg, version, ccsize = self.PRODUCTS[product]
+        mem = bytearray(npages * 4)
+        bcc0 = 0x88 ^ uid[0] ^ uid[1] ^ uid[2]
+        bcc1 = uid[3] ^ uid[4] ^ uid[5] ^ uid[6]
+        mem[0:10] = bytes(uid[0:3]) + bytes([bcc0]) + bytes(uid[3:7]) + bytes([bcc1, 0x48])
+        if ndef:
+            mem[12:16] = bytes([0xE1, 0x10, ccsize, 0x00])
+            mem[16:20] = b"\x03\x00\xFE\x00"
+        self.cfg = cfg
+        mem[cfg * 4 + 3] = auth0
+        mem[cfg * 4 + 4] = 0x80 if prot else 0x00
+        mem[cfg * 4 + 8:cfg * 4 + 12] = pwd
+        mem[cfg * 4 + 12:cfg * 4 + 14] = pack
+        T2TSilicon.__init__(self, mem, uid=uid)
+        self.version = version
+        self.product = product
+        self.authenticated = False
+        self.auth_attempts = []
+
+    def field_off(self):
+        T2TSilicon.field_off(self)
+        self.authenticated = False
+
+    def poll(self, target):
+        r = T2TSilicon.poll(self, target)
+        if r is not None:
+            self.authenticated = False
+            # configuration written with WRITE becomes effective at the next activation
+            # (the reader under test relies on this: it re-selects the tag after protect())
+            self.eff_auth0 = self.mem[self.cfg * 4 + 3]
+            self.eff_prot = bool(self.mem[self.cfg * 4 + 4] & 0x80)
+        return r
+
+    def _protected(self, page):
+        return page >= getattr(self, "eff_auth0", 0xFF) and not self.authenticated
+
+    def command(self, data):
+        if not self.active:
+            self.cmd_log.append(bytes(data))
+            return None
+        c = data[0] if data else None
+        if c == 0x60 and len(data) == 1:
+            self.cmd_log.append(bytes(data))
+            return self.version
+        if c == 0x1B and len(data) == 5:
+            self.cmd_log.append(bytes(data))
+            pwd = bytes(self.mem[self.cfg * 4 + 8:self.cfg * 4 + 12])
+            self.auth_attempts.append(bytes(data[1:5]))
+            if bytes(data[1:5]) == pwd:
+                self.authenticated = True
+                return bytes(self.mem[self.cfg * 4 + 12:self.cfg * 4 + 14])
+            self.authenticated = False
+            self.active = False
+            return b"\x04"
+        if c == 0x3C and len(data) == 2:
+            self.cmd_log.append(bytes(data))
+            return bytes(range(32))
+        if c == 0x30 and len(data) == 2:
+            prot = getattr(self, "eff_prot", False)
+            if prot and any(self._protected((data[1] + i) % self.npages) for i in range(4)) and data[1] < self.npages:
+                self.cmd_log.append(bytes(data))
+                return self._nak()
+            r = T2TSilicon.command(self, data)
+            if r is not None and len(r) == 16:
+                r = bytearray(r)
+                for i in range(4):
+                    p = (data[1] + i) % self.npages
+                    if p in (self.cfg + 2, self.cfg + 3):
+                        r[4 * i:4 * i + 4] = bytes(4)        # PWD and PACK always read as zero
+                r = bytes(r)
+            return r
+        if c == 0xA2 and len(data) == 6:
+            if self._protected(data[1]) and data[1] < self.npages:
+                self.cmd_log.append(bytes(data))
+                return self._nak()
+            if data[1] in (self.cfg, self.cfg + 1, self.cfg + 2, self.cfg + 3):
+                # configuration pages are plain memory (not OR-only)
+                self.cmd_log.append(bytes(data))
+                a = data[1] * 4
+                self.mem[a:a + 4] = data[2:6]
+                self.state_changes += 1
+                self.write_log.append(data[1])
+                self.write_units.append((a, 4))
+                return b"\x0A"
+        return T2TSilicon.command(self, data)
